@@ -100,7 +100,10 @@ def h_serial_history(ctx, which):
     same bits meant a moment ago)."""
     with _patched(ctx, stub=False):
         p = S.DriverLubaRs232.LubaProtocol() if which == "luba" else S.DriverSCIRS232.SCIRS232Protocol()
-        q = S.DistributorQueue(p.queue_rx_dali)
+        # the consumer may subscribe late: what went over the bus before still counts for the decoding of
+        # what it does get to see
+        join_at = ctx.fresh_choice("subscribed_before_frame", 4)
+        q = S.DistributorQueue(p.queue_rx_dali) if join_at == 0 else None
         hi = [0xFF, 0x03, 0x8B][ctx.fresh_choice("hi", 3)]
         lo = ctx.fresh("lo", 0xE0, 0xE7)
         x = (hi << 8) | lo
@@ -108,7 +111,9 @@ def h_serial_history(ctx, which):
         third = ctx.fresh_bool("plain_between")     # a plain frame instead of the second announcement
         frames = [0xC100 | dt1, x, (0xFE00 | (dt2 & 0xFE)) if third else (0xC100 | dt2), x]
         tag = "%s-history" % which
-        for v in frames:
+        for k, v in enumerate(frames):
+            if k == join_at and q is None:
+                q = S.DistributorQueue(p.queue_rx_dali)
             fb = [(v >> 8) & 0xFF, v & 0xFF]
             pkt = rigs.luba_event_rx(fb) if which == "luba" else rigs.sci_frame(0x13, 0, fb[0], fb[1])
             st, r = call(p.data_received, pkt)
@@ -118,12 +123,13 @@ def h_serial_history(ctx, which):
         got = []
         while q.qsize():
             got.append(q.get_nowait())
-        ctx.prove(len(got) == 4, "%d commands delivered for four observed frames" % len(got), key=tag + "/count")
-        if len(got) != 4:
+        ctx.prove(len(got) == 4 - join_at, "%d commands delivered for %d frames observed while subscribed"
+                  % (len(got), 4 - join_at), key=tag + "/count")
+        if len(got) != 4 - join_at:
             return "count"
         types = [0, dt1, 0, 0 if third else dt2]
         labels = []
-        for i, (v, dt, g) in enumerate(zip(frames, types, got)):
+        for i, (v, dt, g) in list(enumerate(zip(frames, types, [None] * join_at + got)))[join_at:]:
             st, want = call(C.from_frame, F.ForwardFrame(16, v), devicetype=dt)
             ok = st == "ok" and type(g) is type(want)
             ctx.prove(ok, "frame %d of the history decoded as %s, under the announced type it is %s"
@@ -131,7 +137,7 @@ def h_serial_history(ctx, which):
                       key=tag + "/class:%d" % i)
             ctx.prove(E.eq(g.frame.as_integer, v), "frame %d delivered with other bits" % i, key=tag + "/bits:%d" % i)
             labels.append(type(g).__name__)
-        return ",".join(labels[1::2])
+        return "join%d:%s" % (join_at, ",".join(labels))
 
 
 def h_serial_widths(ctx, which):
